@@ -214,6 +214,11 @@ func (in *Interp) bvBinop(op token.Token, signed bool, x, y BV, t types.Type) Va
 		}
 		panic(fmt.Sprintf("bvBinop: unexpected op %s", op))
 	}
+	if signed && (x.I != nil || y.I != nil) {
+		if r, ok := in.twinBinop(op, x, y); ok {
+			return r
+		}
+	}
 	a, b := in.bvTerm(x), in.bvTerm(y)
 	tb := in.tb
 	switch op {
@@ -344,6 +349,9 @@ func (in *Interp) unop(instr *ssa.UnOp, x Value, fr *frame) Value {
 			if x.T == nil {
 				return mkBV(int(x.W), -x.C)
 			}
+			if x.I != nil && x.IB <= 62 {
+				return in.mkInt(in.tb.IntBin("-", in.tb.IntLit(0), x.I), int(x.IB))
+			}
 			return in.mkBVT(in.tb.BVNeg(x.T))
 		case Float:
 			return Float{W: x.W, F: -x.F}
@@ -353,6 +361,7 @@ func (in *Interp) unop(instr *ssa.UnOp, x Value, fr *frame) Value {
 		if p == nil {
 			in.goPanic("runtime error: invalid memory address or nil pointer dereference")
 		}
+		in.memAccess(p, false)
 		return copyVal(*p)
 	case token.NOT:
 		return in.notB(x)
@@ -433,7 +442,7 @@ func (in *Interp) strEq(a, b Str) Bool {
 	}
 	// itoa(x) == itoa(y)  <=>  x == y
 	if len(sa) == 1 && len(sb) == 1 && sa[0].Itoa != nil && sb[0].Itoa != nil {
-		return in.mkBoolT(in.tb.Eq(sa[0].Itoa, sb[0].Itoa))
+		return in.eqBV(sa[0].ItoaV, sb[0].ItoaV)
 	}
 	// itoa(x) == "" is false; itoa(x) == "123" <=> x == 123 when canonical decimal
 	if len(sa) == 0 || len(sb) == 0 {
@@ -461,7 +470,7 @@ func (in *Interp) strEq(a, b Str) Bool {
 			if err != nil || strconv.FormatInt(n, 10) != lit.Lit {
 				return Bool{C: false}
 			}
-			return in.mkBoolT(in.tb.Eq(it.Itoa, in.tb.BV(64, uint64(n))))
+			return in.eqBV(it.ItoaV, mkBV(64, uint64(n)))
 		}
 	}
 	// general case: string theory
@@ -498,11 +507,7 @@ func (in *Interp) strTerm(s Str) *smt.Term {
 func (in *Interp) equals(t types.Type, x, y Value) Bool {
 	switch x := x.(type) {
 	case BV:
-		yb := y.(BV)
-		if x.T == nil && yb.T == nil {
-			return Bool{C: x.C == yb.C}
-		}
-		return in.mkBoolT(in.tb.Eq(in.bvTerm(x), in.bvTerm(yb)))
+		return in.eqBV(x, y.(BV))
 	case Bool:
 		yb := y.(Bool)
 		if x.T == nil && yb.T == nil {
@@ -777,4 +782,60 @@ func (in *Interp) convInt(x BV, srcSigned bool, dw int) BV {
 	default:
 		return in.mkBVT(in.tb.ZExt(dw, x.T))
 	}
+}
+
+// twinBinop performs signed 64-bit +,-,*const and comparisons in integer arithmetic when both
+// operands have exact integer twins and the result provably cannot wrap.
+func (in *Interp) twinBinop(op token.Token, x, y BV) (Value, bool) {
+	xi, xb, ok1 := in.intTwin(x)
+	yi, yb, ok2 := in.intTwin(y)
+	if !ok1 || !ok2 {
+		return nil, false
+	}
+	tb := in.tb
+	switch op {
+	case token.ADD, token.SUB:
+		bits := max(xb, yb) + 1
+		if bits > 62 {
+			return nil, false
+		}
+		o := "+"
+		if op == token.SUB {
+			o = "-"
+		}
+		return in.mkInt(tb.IntBin(o, xi, yi), bits), true
+	case token.MUL:
+		if x.T != nil && y.T != nil {
+			return nil, false
+		}
+		bits := xb + yb
+		if bits > 62 {
+			return nil, false
+		}
+		return in.mkInt(tb.IntBin("*", xi, yi), bits), true
+	case token.LSS:
+		return in.mkBoolT(tb.IntCmp("<", xi, yi)), true
+	case token.LEQ:
+		return in.mkBoolT(tb.IntCmp("<=", xi, yi)), true
+	case token.GTR:
+		return in.mkBoolT(tb.IntCmp(">", xi, yi)), true
+	case token.GEQ:
+		return in.mkBoolT(tb.IntCmp(">=", xi, yi)), true
+	}
+	return nil, false
+}
+
+// eqBV is word equality using the integer twins when both sides have one.
+func (in *Interp) eqBV(x, y BV) Bool {
+	if x.T == nil && y.T == nil {
+		return Bool{C: x.C == y.C}
+	}
+	if x.I != nil || y.I != nil {
+		xi, _, ok1 := in.intTwin(x)
+		yi, _, ok2 := in.intTwin(y)
+		if ok1 && ok2 {
+			return in.mkBoolT(in.tb.Eq(xi, yi))
+		}
+	}
+	return in.mkBoolT(in.tb.Eq(in.bvTerm(x), in.bvTerm(y)))
 }
